@@ -104,6 +104,8 @@ func init() {
 			checkASTIntegrity(r, prog, a16, "c13") // and the tree evaluated is the tree parsed: literals are not rewritten afterwards
 			r.importing = "C18"
 			checkGetOpts(r, prog, a16, "c18") // a rendering of any length is read back: no budget unless one is asked for
+			r.importing = "C03"
+			checkConnectives(r, prog, a16, "c03") // the grouping that was parsed is the grouping that is evaluated: every node with its own operator
 		}
 		r.importing = ""
 		r.Technique = "grammar analyses on the rule table: operator-exposure stratification, double-negation fold (typed AST of the action), strconv.Unquote of the whole match, choice shadowing by FIRST-set overlap, keyword boundary by FOLLOW sets"
